@@ -466,6 +466,33 @@ func TestC29Hashes(t *testing.T) {
 		if !bytes.Equal(msg, orig) {
 			t.Fatalf("a hash helper modified its input: %x -> %x", orig, msg)
 		}
+		// a digest handed out stays the digest of its message: hashing a second
+		// message afterwards must not change the slices returned for the first
+		msg2 := genMessage(t, "msg2")
+		first := msg
+		msg = msg2
+		b128b, err := common.Blake2b128(msg2)
+		cmp("Blake2b128", b128b, err, refBlake2b(16, msg2))
+		x64b, err := common.Twox64(msg2)
+		cmp("Twox64", x64b, err, refTwox(1, msg2))
+		x128b, err := common.Twox128Hash(msg2)
+		cmp("Twox128Hash", x128b, err, refTwox(2, msg2))
+		b256b, err := common.Blake2bHash(msg2)
+		cmp("Blake2bHash", b256b[:], err, refBlake2b(32, msg2))
+		msg = first
+		for _, r := range []struct {
+			name      string
+			got, want []byte
+		}{
+			{"Blake2b128", b128, refBlake2b(16, msg)},
+			{"Twox64", x64, refTwox(1, msg)},
+			{"Twox128Hash", x128, refTwox(2, msg)},
+			{"Blake2bHash", b256[:], refBlake2b(32, msg)},
+		} {
+			if !bytes.Equal(r.got, r.want) {
+				t.Fatalf("%s(%x) returned %x, but after hashing %x the returned slice reads %x: digests share storage", r.name, msg, r.want, msg2, r.got)
+			}
+		}
 		labels := []string{"hash", lenLabel(len(msg))}
 		for _, b := range []int{32, 64, 128, 136} {
 			if len(msg) > 0 && len(msg)%b == 0 {
